@@ -548,6 +548,20 @@ static inline int answer_from_qmem_data(int dns_fd, int userid,
 				(void *) cmc);
 }
 
+/* Is q the same query as the one that is waiting in *held? Relays that
+   repeat a query may have changed its letter case; that makes no difference
+   for pings, nor for data encoded in Base32. */
+static inline int same_waiting_query(int userid, struct query *q,
+				     struct query *held)
+{
+	if (q->type != held->type)
+		return 0;
+	if (q->name[0] == 'P' || q->name[0] == 'p' ||
+	    users[userid].encoder == &base32_ops)
+		return !strcasecmp(q->name, held->name);
+	return !strcmp(q->name, held->name);
+}
+
 /* Sends current fragment to user, or dataless packet if there is no
    current fragment available (-> normal "quiet" ping reply).
    Does not update anything, except:
@@ -1220,8 +1234,7 @@ handle_null_request(int tun_fd, int dns_fd, struct dnsfd *dns_fds, struct query 
 		/* Check if duplicate of waiting queries; impatient DNS relays
 		   like to re-try early and often (with _different_ .id!)  */
 		if (users[userid].q.id != 0 &&
-		    q->type == users[userid].q.type &&
-		    !strcmp(q->name, users[userid].q.name) &&
+		    same_waiting_query(userid, q, &users[userid].q) &&
 		    users[userid].lazy) {
 			/* We have this ping already, and it's waiting to be
 			   answered. Always keep the last duplicate, since the
@@ -1240,8 +1253,7 @@ handle_null_request(int tun_fd, int dns_fd, struct dnsfd *dns_fds, struct query 
 		}
 
 		if (users[userid].q_sendrealsoon.id != 0 &&
-		    q->type == users[userid].q_sendrealsoon.type &&
-		    !strcmp(q->name, users[userid].q_sendrealsoon.name)) {
+		    same_waiting_query(userid, q, &users[userid].q_sendrealsoon)) {
 			/* Outer select loop will send answer immediately,
 			   to both queries. */
 			if (debug >= 2) {
@@ -1348,8 +1360,7 @@ handle_null_request(int tun_fd, int dns_fd, struct dnsfd *dns_fds, struct query 
 		/* Check if duplicate of waiting queries; impatient DNS relays
 		   like to re-try early and often (with _different_ .id!)  */
 		if (users[userid].q.id != 0 &&
-		    q->type == users[userid].q.type &&
-		    !strcmp(q->name, users[userid].q.name) &&
+		    same_waiting_query(userid, q, &users[userid].q) &&
 		    users[userid].lazy) {
 			/* We have this packet already, and it's waiting to be
 			   answered. Always keep the last duplicate, since the
@@ -1368,8 +1379,7 @@ handle_null_request(int tun_fd, int dns_fd, struct dnsfd *dns_fds, struct query 
 		}
 
 		if (users[userid].q_sendrealsoon.id != 0 &&
-		    q->type == users[userid].q_sendrealsoon.type &&
-		    !strcmp(q->name, users[userid].q_sendrealsoon.name)) {
+		    same_waiting_query(userid, q, &users[userid].q_sendrealsoon)) {
 			/* Outer select loop will send answer immediately,
 			   to both queries. */
 			if (debug >= 2) {
